@@ -20,6 +20,10 @@ def OkWF (c : Cfg) (r : Res FStr) : Prop := ∃ s, r = .ok s ∧ WF c s
 /-- an observer returned a value (no out-of-bounds access, no exception) -/
 def OkR {α : Type} (r : Res α) : Prop := ∃ a, r = .ok a
 
+@[simp] theorem bindR_ok {α β : Type} (a : α) (f : α → Res β) : bindR (.ok a) f = f a := rfl
+@[simp] theorem bindR_oob {α β : Type} (w : String) (f : α → Res β) : bindR (.oob w : Res α) f = .oob w := rfl
+@[simp] theorem bindR_throw {α β : Type} (e : Exc) (f : α → Res β) : bindR (.throw e : Res α) f = .throw e := rfl
+
 theorem narrow_eq {c : Cfg} (h : CfgOK c) {x : Nat} (hx : x ≤ c.L) : narrow c x = x := by
   unfold narrow; exact Nat.mod_eq_of_lt (Nat.lt_of_le_of_lt hx h.hM)
 
@@ -60,7 +64,7 @@ theorem put1_get {buf r : List Byte} {i : Nat} {b : Byte} (h : put1 buf i b = .o
   split at h
   · cases h
     have : i ≤ buf.length := by simp at *; omega
-    simp [List.getElem?_append, List.length_take, Nat.min_eq_left this]
+    simp [List.length_take, Nat.min_eq_left this]
   · cases h
 
 theorem okwf_bind {c : Cfg} {N : Nat} {r : Res (List Byte)} {f : List Byte → Res FStr} (h : Good N r)
@@ -73,7 +77,7 @@ theorem okwf_finish {c : Cfg} (hc : CfgOK c) {b : List Byte} {n : Nat} (hb : b.l
   unfold finish
   rw [narrow_eq hc hn]
   obtain ⟨r, hr, hl⟩ := good_put1 (buf := b) (i := n) (b := 0) hb (by omega)
-  rw [hr]
+  rw [hr, bindR_ok]
   exact ⟨_, rfl, hl, hn, put1_get hr⟩
 
 theorem okwf_ok {c : Cfg} {s : FStr} (h : WF c s) : OkWF c (.ok s) := ⟨s, rfl, h⟩
